@@ -46,8 +46,36 @@ WORLDS: dict[str, dict[str, str]] = {
         "b.py": "import c\nimport asyncor\nimport imp_\nfrom zoneinf import ZoneInfo\n",
         "c.py": "import graphlb\nx: int = ''\n",
     },
+    # diagnostics that LIST names (abstract attributes, protocol members, TypedDict keys, overlapping parameter names) and a
+    # call whose result depends on the inference mode; checked against the bundled typeshed
+    "lists": {
+        "c.py": (
+            "from typing import Callable, TypeVar, List, Protocol, TypedDict\n"
+            "from abc import ABC, abstractmethod\n"
+            "T = TypeVar('T'); S = TypeVar('S'); U = TypeVar('U')\n"
+            "def dec(f: Callable[[T], S]) -> Callable[[T], List[S]]:\n    raise NotImplementedError\n"
+            "def ident(x: U) -> U:\n    return x\n"
+            "class Abs(ABC):\n" + "".join("    @abstractmethod\n    def m%d(self) -> None: ...\n" % i for i in range(1, 6)) +
+            "class P(Protocol):\n" + "".join("    def p%d(self) -> int: ...\n" % i for i in range(1, 6)) +
+            "class TD(TypedDict):\n" + "".join("    k%d: int\n" % i for i in range(1, 6)) +
+            "class Empty:\n    pass\n"
+        ),
+        "b.py": (
+            "import c\nfrom typing_extensions import Unpack\n"
+            "reveal_type(c.dec(c.ident))\n"
+            "c.Abs()\n"
+            "x: c.P = c.Empty()\n"
+            "td: c.TD = {}\n"
+            "td2: c.TD = {'k1': 1, 'k2': 1, 'k3': 1, 'k4': 1, 'k5': 1, 'z1': 1, 'z2': 2, 'z3': 3, 'z4': 4}\n"
+            "def kw(k1: int, k2: int, k3: int, k4: int, **kwargs: Unpack[c.TD]) -> None: ...\n"
+            "class Half(c.Abs):\n    def m2(self) -> None: ...\nHalf()\n"
+        ),
+        "a.py": "import b\nimport c\nv: int = c.ident('')\nw = c.dec(c.ident)\nreveal_type(w)\n",
+    },
 }
 FILES = ["a.py", "b.py", "c.py"]
+SLOW_WORLDS = {"lists"}
+MEASURED_OPTS: dict[str, dict[str, Any]] = {"default": {}, "oldinf": {"old_type_inference": True}}
 PRIOR_OPTS: dict[str, dict[str, Any]] = {
     "same": {},
     "py310": {"python_version": (3, 10)},
@@ -93,11 +121,14 @@ def one_config(cfg: dict[str, Any], base: str) -> dict[str, Any]:
     # directory gets into the cache records (the path of an imported module is part of its interface hash)
     srcs += [(f, f[:-3]) for f in sorted(WORLDS[cfg["world"]]) if f not in FILES]
     ctl = W.new_ctl(tick=0, record=False)
-    out = W.build_in_process(root, srcs, dict(cache_dir="cache", store="fs", fmt=fmt, alt_lib="."), ctl)
+    mkw = dict(cache_dir="cache", store="fs", fmt=fmt, alt_lib=".", **MEASURED_OPTS[cfg.get("mopts", "default")])
+    if cfg["world"] in SLOW_WORLDS:
+        mkw["real_typeshed"] = True
+    out = W.build_in_process(root, srcs, dict(mkw), ctl)
     h, per = digest_cache(os.path.join(root, "cache"))
     # and a warm run in the same process: must print the same
     ctl2 = W.new_ctl(tick=ctl["tick"], record=False)
-    warm = W.build_in_process(root, srcs, dict(cache_dir="cache", store="fs", fmt=fmt, alt_lib="."), ctl2)
+    warm = W.build_in_process(root, srcs, dict(mkw), ctl2)
     return {"messages": out["messages"], "status": out["status"], "cache": h, "records": per,
             "warm_messages": warm["messages"], "warm_status": warm["status"]}
 
